@@ -211,6 +211,11 @@ def rsum_axioms():
     ]
 
 
+def streams_le_uint(a, off, w):
+    from . import streams
+    return streams.le_uint(a, off, w)
+
+
 def call_builtin(ex, st, name, args, kwargs, node):
     line = ex.cur_line
     short = name.split(".")[-1]
@@ -500,6 +505,15 @@ def call_builtin(ex, st, name, args, kwargs, node):
         if name == "byte_of":
             return VInt(streams.digit(as_int(args[0]), k))
         return VInt(streams.digit(streams.f32bits(as_real(args[0])), k))
+    if name == "cells32":
+        # the little-endian uint32 cells of a bytes value, as a sequence
+        a = args[0].comps[0]
+        c = z3.Int("fb%c")             # (the very term array('I', bytes) builds: equal arrays are equal terms)
+        cells = VSeq([z3.Lambda([c], streams_le_uint(a, 4 * c, 4))], args[0].ln / 4, TInt(0, 2 ** 32 - 1), "list")
+        return named_array(ex, st, cells) if not ex.binder_marks else cells
+    if name == "nzlead":
+        from . import tables
+        return VInt(tables.nzlead(args[0].comps[0], as_int(args[1])))
     if name == "f32_at_be":
         from . import streams
         return VReal(streams.f32val(streams.be_uint(args[0].comps[0], as_int(args[1]), 4)))
@@ -758,7 +772,7 @@ def exec_with(ex, s, st):
 # ---------------------------------------------------------------------------------------------
 
 
-REAL_BUILTINS = {"hex_byte", "unhex", "f32_at_be", "smul", "f32", "ln", "exp_", "log2_", "pow_", "ceil_", "le_bytes", "be_bytes", "upd", "rem", "allkeys",
+REAL_BUILTINS = {"cells32", "nzlead", "hex_byte", "unhex", "f32_at_be", "smul", "f32", "ln", "exp_", "log2_", "pow_", "ceil_", "le_bytes", "be_bytes", "upd", "rem", "allkeys",
                  "tcount", "tsize", "lcount", "nodup", "same", "undone_table", "undone_hand", "written", "f32_at", "byte_of", "f32_byte", "i32_at", "i64_at", "default_mode", "mode_of", "file_bytes", "file_exists", "resolve"}
 
 
